@@ -816,8 +816,36 @@ class Machine:
             return None
         if n.startswith('llvm.fmuladd'):
             return s.fbin('fadd', s.fbin('fmul', args[0], args[1]), args[2])
-        if n.startswith('llvm.fabs'):
-            n = 'fabs'
+        mi = re.match(r'llvm\.(\w+)\.f64$', n)
+        if mi and mi.group(1) in LIBM + ('trunc',):
+            n = mi.group(1)
+        if n in ('rint', 'nearbyint', 'round', 'floor', 'ceil', 'trunc'):
+            x = args[0]
+            if isinstance(x, (SqrtT, DiffT)):
+                x = s.force(x)
+            if not is_sym(x):
+                if n in ('rint', 'nearbyint'):
+                    return Fraction(round(x))          # Fraction.__round__ rounds half to even, like rint in RNE mode
+                if n == 'round':
+                    return Fraction(math.floor(x + Fraction(1, 2)) if x >= 0 else -math.floor(-x + Fraction(1, 2)))
+                if n == 'floor':
+                    return Fraction(math.floor(x))
+                if n == 'ceil':
+                    return Fraction(math.ceil(x))
+                return Fraction(int(x))
+            fl = z3.ToInt(x)
+            if n == 'floor':
+                return z3.ToReal(fl)
+            if n == 'ceil':
+                return z3.ToReal(-z3.ToInt(-x))
+            if n == 'trunc':
+                return z3.ToReal(z3.If(x >= 0, fl, -z3.ToInt(-x)))
+            if n == 'round':
+                return z3.ToReal(z3.If(x >= 0, z3.ToInt(x + z3.RealVal('1/2')), -z3.ToInt(-x + z3.RealVal('1/2'))))
+            # rint: nearest, ties to even
+            h = z3.ToInt(x + z3.RealVal('1/2'))
+            tie = (z3.ToReal(h) == x + z3.RealVal('1/2'))
+            return z3.ToReal(z3.If(z3.And(tie, h % 2 != 0), h - 1, h))
         if n.startswith('llvm.memset'):
             p, val, nbytes = args[0], args[1], args[2]
             if val != 0 or is_sym(nbytes) or is_sym(p.off):
